@@ -47,7 +47,7 @@ Lemma file_image : forall (is : list item) (xml : list N),
     let L := ls_data (final_stream is xml) in
     snd (wrun (file_prog is xml) pw0) = Ok outs /\
     snd (pw_flush (fst (wrun (file_prog is xml) pw0))) = Ok tt /\
-    file_of is xml = paginate log /\
+    d_bytes (pw_dev (fst (pw_flush (fst (wrun (file_prog is xml) pw0))))) = paginate log /\
     laid 48 is outs secs /\ (48 + len body) mod 4 = 0 /\
     len L = 48 + len body + len xml /\
     ls_phys_size (final_stream is xml) = pages_for (len L) * 1024 /\
@@ -55,7 +55,7 @@ Lemma file_image : forall (is : list item) (xml : list N),
     log = hdr (pages_for (len L) * 1024) (phys_of_log (48 + len body)) (len xml)
             ++ body ++ xml ++ zeros (pages_for (len L) * 1020 - len L).
 Proof.
-  intros is xml Hwf. unfold final_stream, file_of.
+  intros is xml Hwf. unfold final_stream.
   destruct (file_prog_spec is xml Hwf) as (outs & secs & Hspec & Hlaid & Hal).
   destruct (wrun_image _ (file_prog is xml)) as (Hres & Hfl & Himg).
   rewrite Hspec in Hres, Himg |- *. cbn [fst snd ls_data] in Hres, Himg |- *.
@@ -115,7 +115,7 @@ Proof.
   intros is xml Hwf Hxml Hxl Hsize.
   destruct (file_image is xml Hwf)
     as (outs & secs & log & Hres & Hfl & Hfile & Hlaid & Hal & HlenL & Hphys & Hlenlog & Hlog).
-  cbv zeta in *. unfold roundtrip_ok. unfold file_of in Hfile.
+  cbv zeta in *. unfold roundtrip_ok.
   (* the state of the paged writer after the program: from here on a variable *)
   revert Hres Hfl Hfile. generalize (wrun (file_prog is xml) pw0). intros [s r] Hres Hfl Hfile.
   cbn [fst snd] in Hres, Hfl, Hfile. subst r.
@@ -195,7 +195,7 @@ Lemma file_size_is_phys_size : forall is xml, forallb item_wf is = true ->
 Proof.
   intros is xml Hwf.
   destruct (file_image is xml Hwf) as (_ & _ & log & _ & _ & Hfile & _ & _ & _ & Hphys & Hlenlog & _).
-  cbv zeta in *. rewrite Hfile, Hphys, len_paginate.
+  cbv zeta in *. unfold file_of. rewrite Hfile, Hphys, len_paginate.
   rewrite pages_for_divisible by lia. lia.
 Qed.
 
@@ -212,7 +212,7 @@ Proof.
   intros is Hwf Hend Hsize.
   destruct (file_image is [] Hwf)
     as (outs & secs & log & _ & _ & Hfile & _ & _ & HlenL & Hphys & Hlenlog & Hlog).
-  cbv zeta in *. rewrite Hfile.
+  cbv zeta in *. unfold file_of. rewrite Hfile.
   set (body := concat secs) in *. set (LL := len (ls_data (final_stream is []))) in *.
   set (PL := pages_for LL * 1024) in *. set (XO := phys_of_log (48 + len body)) in *.
   rewrite Hphys in Hsize. change (len (@nil N)) with 0 in *.
